@@ -16,8 +16,17 @@
                                  TCom c       a comment
                                  TStop w      lexing stopped: L = line terminator inside '...' / "...", I = template interpolation "${",
                                               U = input ended inside a literal or block comment, E = a hole right after a backslash
-                                              or inside a comment
+                                              (what stands there is an escape sequence begun by the author) or inside a comment
                                and, for every hole, its lexical position (EPos true = inside a literal).
+                               LINE TERMINATORS (ECMAScript 12.3) are LF, CR, U+2028, U+2029; CR LF is one terminator sequence.
+                                 - in script text they are script text; each of the four ends a // comment;
+                                 - backslash + terminator sequence inside any literal is a LineContinuation: it contributes
+                                   nothing to the value.  Backslash CR is complete as it stands (state E2): an LF that follows
+                                   belongs to it, anything else - a hole included - is read as the next character of the literal;
+                                 - a raw terminator inside `...` is part of the value (CR LF and CR cook to LF);
+                                 - a raw terminator inside '...' / "..." is not JavaScript: the literal is not closed on its line
+                                   and no engine runs any part of such a script.  Lexing stops there (TStop L).  U+2028/9 are
+                                   treated this way too (engines before ES2019): conservative.
                                On a template, a hole in script text stands for ONE string token whose value is the Go string
                                (invalid bytes scrubbed, as a JSON encoder must); a hole inside a literal stands for the Go string's
                                bytes as part of that literal's value.
@@ -26,6 +35,16 @@
                                script text outside literals is the author's, every literal ends where the author ended it and has
                                the value the author wrote around the Go string - and [out] has as many "</script" / "<!--" places
                                as the author's text.
+                               TEMPLATES THAT ARE NOT JAVASCRIPT (lexing stops: a literal not closed on its line, "${", input
+                               ending inside a literal or comment): the token sequence ends with the TStop token, and [confined]
+                               demands that the rendering has the same tokens up to there AND stops at the same place for the
+                               same reason - whatever the values of the holes before it, the rendering is rejected by the engine
+                               exactly as the author's text is, so no value makes a script run that the author's text does not.
+                               Nothing behind the stop is compared as JavaScript (there is no token structure to preserve; the
+                               holes behind it get no lexical position), but the "</script" / "<!--" places are counted over the
+                               WHOLE text, stop or not: a value behind the stop still cannot end the element.  What templ's
+                               parser makes of the text behind a stop is the subject of the model tracker (model/JsTrack.v,
+                               tied to the parser on every generated template) - not of this predicate.
    Not recognised (trusted limits): regular-expression literals (a "/" that is not "//" or "/*" is script text), "${ }"
    interpolations (lexing stops there), HTML-like comments of Annex B ("<!--", "-->").                                        *)
 From Coq.Strings Require Import Byte String.
@@ -107,7 +126,7 @@ Definition step (vals : list bytes) (m : mode) (s : list sym) : mode * list ev :
           end
       | MStr q e ps =>
           match x with
-          | SH i => match e with E0 => (MStr q E0 (PcHole i :: ps), [EPos true]) | _ => stop x45 end
+          | SH i => match e with E1 => stop x45 | _ => (MStr q E0 (PcHole i :: ps), [EPos true]) end
           | SB c =>
               match (match e with E2 => if Byte.eqb c x0a then E2 else E0 | _ => e end) with
               | E2 => (MStr q E0 (PcRaw c :: ps), [])                       (* the LF of a backslash CR LF continuation *)
@@ -190,6 +209,14 @@ Definition same_tokens (vals : list bytes) (tpl : list sym) (out : bytes) : bool
 Definition same_ends (tpl : list sym) (out : bytes) : bool := Nat.eqb (count_ends (bytes_syms out)) (count_ends tpl).
 Definition confined (vals : list bytes) (tpl : list sym) (out : bytes) : bool := same_tokens vals tpl out && same_ends tpl out.
 
+(* ---------------- the same template saved with CR LF line endings ---------------- *)
+(* every LF of the author's text becomes CR LF; holes are untouched *)
+Definition crlf_sym (x : sym) : list sym :=
+  match x with SB c => if Byte.eqb c x0a then [SB x0d; SB x0a] else [x] | SH _ => [x] end.
+Definition crlf (s : list sym) : list sym := flat_map crlf_sym s.
+Definition no_cr (s : list sym) : bool :=
+  forallb (fun x => match x with SB c => negb (Byte.eqb c x0d) | SH _ => true end) s.
+
 (* the token structure alone: literal values forgotten *)
 Definition skel_tok (t : tok) : tok := match t with TStr _ => TStr None | _ => t end.
 Definition skeleton (l : list ev) : list tok := map skel_tok (toks_of l).
@@ -215,6 +242,16 @@ Definition lt_slash : bytes := [x3c; x2f].                             (* "</" *
      - the author's text is cut at rune boundaries: the lead byte E2 is followed by two bytes, no hole is followed by a
        continuation byte, and no value starts with one (all true of valid UTF-8);
      - in a template literal no "$" of the author stands directly before a hole *)
+(* the CR of a "backslash CR" continuation and an LF of the author are not made one line ending by an empty value
+   between them: the value of a hole that directly follows backslash CR is not empty, or the author's text after the hole
+   starts with something other than LF *)
+Definition cr_lf_kept (v : bytes) (r : list sym) : bool :=
+  match v with
+  | _ :: _ => true
+  | [] => match r with SB d :: _ => negb (Byte.eqb d x0a) | [] => true | SH _ :: _ => false end
+  end.
+Definition after_bs_cr (m : mode) : bool := match m with MStr _ E2 _ => true | _ => false end.
+
 Definition ok_junction (vals : list bytes) (m : mode) (s : list sym) : bool :=
   match s with
   | SB c :: r =>
@@ -224,14 +261,16 @@ Definition ok_junction (vals : list bytes) (m : mode) (s : list sym) : bool :=
       | MStr q _ _ => negb (is_backtick q && Byte.eqb c x24 && match r with SH _ :: _ => true | _ => false end)
       | _ => true
       end
-  | SH i :: r => head_not_cont (nth i vals []) && match r with SB d :: _ => negb (is_cont d) | _ => true end
+  | SH i :: r => head_not_cont (nth i vals []) && match r with SB d :: _ => negb (is_cont d) | _ => true end &&
+                 (if after_bs_cr m then cr_lf_kept (nth i vals []) r else true)
   | [] => true
   end.
 (* the same without the "$" clause (to state what fails without it) *)
 Definition ok_junction_no_dollar (vals : list bytes) (m : mode) (s : list sym) : bool :=
   match s with
   | SB c :: r => if Byte.eqb c xe2 then match r with SB _ :: SB _ :: _ => true | _ => false end else true
-  | SH i :: r => head_not_cont (nth i vals []) && match r with SB d :: _ => negb (is_cont d) | _ => true end
+  | SH i :: r => head_not_cont (nth i vals []) && match r with SB d :: _ => negb (is_cont d) | _ => true end &&
+                 (if after_bs_cr m then cr_lf_kept (nth i vals []) r else true)
   | [] => true
   end.
 
@@ -242,7 +281,8 @@ Definition ok_junction_no_dollar (vals : list bytes) (m : mode) (s : list sym) :
 Definition ok_tracker (m : mode) (s : list sym) : bool :=
   match m, s with
   | MCode _, SB c :: _ => negb (Byte.eqb c x5c) && negb (sb_prefix lt_slash s)
-  | MStr _ E0 _, SH _ :: r => match skip_ws r with [] => false | _ => negb (sb_prefix lt_slash (skip_ws r)) end
+  | MStr _ e _, SH _ :: r =>
+      match e with E1 => true | _ => match skip_ws r with [] => false | _ => negb (sb_prefix lt_slash (skip_ws r)) end end
   | MLine _, SB c :: _ => negb (Byte.eqb c x0d) && negb (s_lsps_at s)
   | _, _ => true
   end.
